@@ -130,3 +130,24 @@ if _fault:
             _m.encode_genotypes_slice = _eg
     except Exception as _e:  # noqa: BLE001
         sys.stderr.write(f"VERIF_FAULT not installed: {_e}\n")
+
+if os.environ.get("VERIF_MARK_TASKS") and _log:
+    # bracket every PLINK slice task in the audit log so that events can be attributed to tasks
+    import functools as _ft
+
+    try:
+        from bio2zarr import plink as _pm
+
+        _orig_slice = _pm.encode_genotypes_slice
+
+        @_ft.wraps(_orig_slice)
+        def _marked(bed_path, zarr_path, start, stop, _orig=_orig_slice):
+            os.write(_fd, (f"-\tbegin\tplink:{start}:{stop}\t{os.getpid()}\n").encode())
+            try:
+                return _orig(bed_path, zarr_path, start, stop)
+            finally:
+                os.write(_fd, (f"-\tend\tplink:{start}:{stop}\t{os.getpid()}\n").encode())
+
+        _pm.encode_genotypes_slice = _marked
+    except Exception as _e:  # noqa: BLE001
+        sys.stderr.write(f"VERIF_MARK_TASKS not installed: {_e}\n")
